@@ -32,7 +32,13 @@ TRUSTED = [
     "footprint correspondence on provenance scalars (coq/Model/LayersRun.v)",
     "modelled primitives: nn.Linear / LayerNorm / GroupNorm / nn.TransformerEncoder / the feature encoder as "
     "blocks acting on each row (explicit hypotheses of the theorems); torch.chunk, repeat, cat, view, mean",
-    "harness/c14.py + harness/nnprobe.py (dataset builder, perturbation, bit-exact change detection)",
+    "per-run validation (harness/c14.py extra): nn.Linear, LayerNorm, BatchNorm1d(eval), Sequential with Dropout, "
+    "GLU, nn.TransformerEncoder(eval) and GroupNorm are perturbed directly (only the perturbed row may change, "
+    "bit-exactly); eval-mode BatchNorm1d is compared numerically with the bn_eval computation of Model/Layers.v; "
+    "a discrimination self-test asserts that one architecture's measured footprints fail against the Coq models "
+    "of the six others",
+    "harness/c14.py + harness/nnprobe.py (dataset builder, forward hooks on the repository's attribute names, "
+    "perturbation, bit-exact change detection)",
 ]
 ASSUMPTIONS = [
     "theorems are over exact arithmetic with abstract scalars and uninterpreted non-linearities; IEEE round-off "
@@ -43,6 +49,15 @@ ASSUMPTIONS = [
     "'every column can influence the prediction' is proved only in the provenance instance for bounded shapes "
     "(by computation) and measured on the real parameters with up to 8 re-draws",
     "datasets are non-degenerate: every categorical column has >= 2 categories, every numerical column >= 2 values",
+    "numerical cells are finite or missing: the property's quantifier says 'rows with missing values'; an infinite "
+    "cell makes MLP / ResNet / FTTransformer / TabTransformer return NaN for that row (same root cause as C12's "
+    "known finding inf-cell-non-finite-output) and is NOT generated here",
+    "only stypes a model uses are generated (numerical + categorical; ExcelFormer numerical only): the quantifier "
+    "says '>= 2 columns per USED stype'; TabTransformer silently ignores columns of any other stype",
+    "the Coq side runs with each case's own hyper-parameters (columns per stype, channels, layers, heads, "
+    "prompts, out_channels, batch size vs the 512-row virtual batch) and is compared per probe tensor (forward "
+    "hooks: input of the first post-encoder module, TabNet's first mask, FT's token sequence, TabTransformer's "
+    "decoder input, Trompt's per-layer prompts, ExcelFormer's decoder input) at position granularity",
 ]
 
 NORM_CODE = {None: 0, "layer_norm": 1, "batch_norm": 2}
@@ -189,6 +204,26 @@ def _history(case, tf0, model):
     return phases
 
 
+def expected_probe(case, pname, kinds, K):
+    """Which (column c, position k) pairs the architecture's glue lets interact -- used ONLY to decide whether a
+    further completeness trial is needed; the comparison itself is done by the Coq model (coq_term)."""
+    ncols = len(kinds)
+    ch = case["opts"].get("channels", 8)
+    cat = [j for j, k in enumerate(kinds) if k == "categorical"]
+    if pname in ("backbone_in", "bn_in"):
+        w = max(1, K // max(1, ncols))
+        return [[k // w == c for k in range(K)] for c in range(ncols)]
+    if pname == "transformer_in":
+        return [[k // ch == c + 1 for k in range(K)] for c in range(ncols)]
+    if case["model"] == "TabTransformer" and pname == "conv0_in":
+        return [[(c in cat) and k // ch == cat.index(c) and k % ch < ch - 2 for k in range(K)] for c in range(ncols)]
+    if case["model"] == "TabTransformer" and pname == "decoder_in":
+        return [[(k < len(cat) * ch) == (c in cat) for k in range(K)] for c in range(ncols)]
+    if case["model"] == "ExcelFormer" and pname == "decoder_in":
+        return [[c <= k // ch for k in range(K)] for c in range(ncols)]
+    return [[True] * K for _ in range(ncols)]
+
+
 def _probe(case, ds, tf0, model, outc):
     rng = _prng(case, 1)
     o = {}
@@ -202,7 +237,7 @@ def _probe(case, ds, tf0, model, outc):
     n = len(tf)
     cols = P.columns_of(tf)
     ncats = P.num_categories(ds, tf)
-    o["n"], o["ncols"] = n, len(cols)
+    o["n"], o["ncols"], o["out_channels"] = n, len(cols), outc
     o["col_kinds"] = [c[0].value for c in cols]
     o["has_missing"] = bool(any(torch.isnan(v).any() if v.is_floating_point() else (v < 0).any()
                                 for v in tf.feat_dict.values()))
@@ -226,19 +261,33 @@ def _probe(case, ds, tf0, model, outc):
         meta.append({"what": "prefix-512", "diff": P.maxdiff(P.fwd(model, tf[:512]), out[:512])})
     o["meta"] = meta
     # footprints, with re-drawn parameters / sizes while a predicted dependency is unmeasured
+    mname = case["model"]
+    has_cat = "categorical" in o["col_kinds"]
+    pnames = P.probe_names(mname, has_cat)
+    out, base = P.fwd_probes(mname, model, tf, has_cat)
+    o["probe_names"] = pnames
+    o["probe_K"] = [None if b is None else int(b.shape[1]) for b in base]
+    expect = [None if b is None else expected_probe(case, pn, o["col_kinds"], int(b.shape[1]))
+              for pn, b in zip(pnames, base)]
+    probe_fp = [None if b is None else [[False] * int(b.shape[1]) for _ in cols] for b in base]
+
+    def probe_incomplete(j):
+        return any(e is not None and any(e[j][k] and not m[j][k] for k in range(len(e[j])))
+                   for e, m in zip(expect, probe_fp))
+
     row_changed = {r: set() for r in probe_rows}
     col_reached = [False] * len(cols)
     col_leak = []
     trials = 0
     for t in range(TRIALS):
         need_rows = [r for r in probe_rows if r not in row_changed[r]]
-        need_cols = [j for j in range(len(cols)) if not col_reached[j]]
+        need_cols = [j for j in range(len(cols)) if not col_reached[j] or probe_incomplete(j)]
         if t > 0 and not need_rows and not need_cols:
             break
         trials += 1
         if t > 0:
             P.redraw_params(model, t)
-            out = P.fwd(model, tf)
+            out, base = P.fwd_probes(mname, model, tf, has_cat)
         size = SIZES[t % 3]
         for r in (probe_rows if t == 0 else need_rows):
             t2 = P.clone_tf(tf)
@@ -255,16 +304,22 @@ def _probe(case, ds, tf0, model, outc):
             r = rng.choice(present or probe_rows)
             t2 = P.clone_tf(tf)
             P.perturb_cell(t2, r, cols[j], rng, size, ncats)
-            ch = P.changed_rows(out, P.fwd(model, t2))
+            out2, pr2 = P.fwd_probes(mname, model, tf=t2, has_cat=has_cat)
+            ch = P.changed_rows(out, out2)
             if ch is None:
                 col_leak.append([j, r, [-1]])
                 continue
+            for b, b2, m in zip(base, pr2, probe_fp):
+                if b is not None and b2 is not None and b.shape == b2.shape:
+                    for k in P.changed_positions(b, b2, r):
+                        m[j][k] = True
             if r in ch:
                 col_reached[j] = True
             if any(s != r for s in ch):
                 col_leak.append([j, r, ch[:8]])
     o["rows"] = [[r, sorted(row_changed[r])] for r in probe_rows]
     o["cols"] = col_reached
+    o["probe_fp"] = probe_fp
     o["col_leak"] = col_leak
     o["trials"] = trials
     return o
@@ -374,36 +429,172 @@ def stats(cases, obss):
 
 
 # ------------------------------------------------------------------ Coq side
-def coq_model_term(case, obs):
-    """The Coq model of this case's architecture run on provenance scalars: per output row its input cells."""
-    m, opts = case["model"], case["opts"]
+def coq_model_term(case, obs, model=None):
+    """The Coq model of (the architecture `model`, default: this case's) run on provenance scalars with THE CASE'S
+    OWN hyper-parameters: the list of probes [B, K] (intermediate tensors ..., final output)."""
+    m, opts = model or case["model"], case["opts"]
     n, cols = obs["n"], obs["ncols"]
     L = opts.get("layers", 2)
+    ch = opts.get("channels", 8)
+    out = obs["out_channels"]
     X = f"(seq 0 {n})"
     if m == "MLP":
-        return f"deps2 (p_mlp {NORM_CODE[opts.get('norm', 'layer_norm')]} {L} {cols} 2 2 {X})"
+        return f"p_mlp {NORM_CODE[opts.get('norm', 'layer_norm')]} {L} {cols} {ch} {out} {X}"
     if m == "ResNet":
-        return f"deps2 (p_resnet {NORM_CODE[opts.get('norm', 'layer_norm')]} {L} {cols} 2 2 {X})"
+        return f"p_resnet {NORM_CODE[opts.get('norm', 'layer_norm')]} {L} {cols} {ch} {out} {X}"
     if m == "TabNet":
         has_cat = "categorical" in obs["col_kinds"]
         ce = opts.get("cat_emb", 2) if has_cat else 1
-        return (f"deps2 (p_tabnet {L} {cols} {ce} 2 {opts.get('shared', 2)} {opts.get('dep', 2)} 512 2 {X})")
+        return f"p_tabnet {L} {cols} {ce} {ch} {opts.get('shared', 2)} {opts.get('dep', 2)} 512 {out} {X}"
     if m == "FTTransformer":
-        return f"deps2 (p_ft {cols} 2 2 {X})"
+        return f"p_ft {cols} {ch} {out} {X}"
     if m == "TabTransformer":
         cat = [j for j, k in enumerate(obs["col_kinds"]) if k == "categorical"]
         num = [j for j, k in enumerate(obs["col_kinds"]) if k == "numerical"]
-        return f"deps2 (p_tabt {L} {opts.get('heads', 2)} {cols} 4 2 2 {P.cnats(cat)} {P.cnats(num)} {X})"
+        return f"p_tabt {L} {opts.get('heads', 2)} {cols} {ch} 2 {out} {P.cnats(cat)} {P.cnats(num)} {X}"
     if m == "Trompt":
-        return f"deps3 (p_trompt {L} {cols} 2 {opts.get('prompts', 2)} 2 {X})"
+        return f"p_trompt {L} {cols} {ch} {opts.get('prompts', 2)} {out} {X}"
     if m == "ExcelFormer":
-        h = min(opts.get("heads", 2), 2)
-        return f"deps2 (p_excel {L} {h} {cols} 2 2 {X})"
+        return f"p_excel {L} {opts.get('heads', 2)} {cols} {ch} {out} {X}"
     raise ValueError(m)
 
 
-def coq_term(case, obs):
+def coq_term(case, obs, model=None):
     if not obs.get("ok"):
         return None
     rows = "[" + "; ".join(f"({r}, {P.cnats(ch)})" for r, ch in obs["rows"]) + "]"
-    return f"model_fp_ok {obs['ncols']} ({coq_model_term(case, obs)}) {obs['n']} {rows} {P.cbvec(obs['cols'])}"
+    fps = "[" + "; ".join("None" if m is None else f"Some {P.cbmat(m)}" for m in obs["probe_fp"]) + "]"
+    return f"model_fp_ok {obs['ncols']} ({coq_model_term(case, obs, model)}) {obs['n']} {rows} {fps}"
+
+
+# ------------------------------------------------------------------ per-run validation of the hypotheses
+def validate_torch_blocks(rng):
+    """The theorems assume that torch's own blocks act on every row of the batch separately in evaluation mode.
+    Checked here directly on the blocks (bit-exact single-row perturbation, row scored alone to 1e-9), and
+    eval-mode BatchNorm1d is compared numerically with the computation `bn_eval` of Model/Layers.v."""
+    import torch.nn as nn
+    fails, n = [], 0
+    with P.f64(rng.randrange(1 << 30)):
+        F = 6
+        blocks = {
+            "Linear": (nn.Linear(F, 5), (F,)),
+            "LayerNorm": (nn.LayerNorm(F), (F,)),
+            "BatchNorm1d(eval)": (nn.BatchNorm1d(F), (F,)),
+            "Sequential(Linear,BatchNorm1d,SELU,Dropout,Linear)(eval)":
+                (nn.Sequential(nn.Linear(F, 7), nn.BatchNorm1d(7), nn.SELU(), nn.Dropout(0.3), nn.Linear(7, 3)), (F,)),
+            "GLU(Linear)": (nn.Sequential(nn.Linear(F, 8, bias=False), nn.GLU()), (F,)),
+            "TransformerEncoder(eval)": (nn.TransformerEncoder(
+                nn.TransformerEncoderLayer(d_model=8, nhead=2, dim_feedforward=8, dropout=0.2, batch_first=True),
+                num_layers=2, norm=nn.LayerNorm(8)), (4, 8)),
+            "GroupNorm(per sample)": (nn.GroupNorm(2, 4), (4, 3, 5)),
+        }
+        for name, (blk, shape) in blocks.items():
+            for B in (1, 3, 7):
+                # a few training passes so that running statistics are non-trivial, then eval
+                blk.train()
+                if B > 1:
+                    blk(torch.randn(B, *shape))
+                blk.eval()
+                P.randomize_params(blk, 0.3)
+                x = torch.randn(B, *shape)
+                with torch.no_grad():
+                    y = blk(x)
+                    for r in range(B):
+                        x2 = x.clone()
+                        x2[r] += torch.randn(*shape)
+                        ch = P.changed_rows(y, blk(x2))
+                        n += 1
+                        if ch != [r]:
+                            fails.append(dict(key="torch-block-not-rowwise", case=None, what=f"torch block {name}: perturbing "
+                                              f"row {r} of a batch of {B} changed rows {ch} (hypothesis acts_rowwise)",
+                                              observed=ch))
+                        d = P.maxdiff(blk(x[r:r + 1]), y[r:r + 1])
+                        if not d <= P.TOL:
+                            fails.append(dict(key="torch-block-not-rowwise", case=None, what=f"torch block {name}: row {r} "
+                                              f"scored alone differs by {d:.3g}", observed=d))
+        # eval-mode BatchNorm1d == (x - running_mean) / sqrt(running_var + eps) * weight + bias, broadcast over rows
+        bn = nn.BatchNorm1d(F)
+        bn.train()
+        bn(torch.randn(9, F) * 3 + 1)
+        bn.eval()
+        P.randomize_params(bn, 0.5)
+        x = torch.randn(5, F)
+        with torch.no_grad():
+            ref = (x - bn.running_mean[None, :]) / torch.sqrt(bn.running_var[None, :] + bn.eps) * bn.weight[None, :] \
+                + bn.bias[None, :]
+            d = P.maxdiff(bn(x), ref)
+        n += 1
+        if not d <= 1e-12:
+            fails.append(dict(key="bn-eval-model", case=None, what=f"eval-mode BatchNorm1d differs from the computation "
+                              f"modelled by bn_eval by {d:.3g}", observed=d))
+    return fails, n
+
+
+def selftest_discrimination(rng):
+    """The correspondence must DISCRIMINATE: the observation of one architecture must not pass against the Coq
+    model of another one (and must pass against its own).  One numeric-only frame, all seven architectures."""
+    data = P.gen_data(rng, 3, 4, 0, "regression", 0.3)
+    cases, obss = [], []
+    for m in P.MODELS:
+        opts = {"stypes": "num"} if m == "TabTransformer" else {}
+        case = {"model": m, "opts": opts, "task": "regression", "data": data, "history": [1], "steps": 1,
+                "seed": rng.randrange(1 << 30), "idxs": [[0]], "kind": "small"}
+        cases.append(case)
+        obss.append(run(case))
+    terms, meaning = [], []
+    for i, (ca, oa) in enumerate(zip(cases, obss)):
+        if not oa.get("ok"):
+            return [dict(key="selftest-run-failed", case=ca, what=f"self-test run of {ca['model']} failed: {oa.get('msg')}")], {}
+        for mb in P.MODELS:
+            cb = dict(ca, opts={"stypes": "num"} if mb == "TabTransformer" else {})
+            t = coq_term(cb, oa, model=mb)
+            same = mb == ca["model"]
+            terms.append((len(terms), t if same else f"negb ({t})"))
+            meaning.append((ca["model"], mb, same))
+    ok, bad, log = C.run_coq_cases(PROP + "selftest", HEADER, terms, shard=25)
+    fails = []
+    if not ok:
+        fails.append(dict(key="selftest-coq-failed", case=None, what="discrimination self-test could not be evaluated: " + log[-500:]))
+    for k in bad:
+        a, b, same = meaning[k]
+        fails.append(dict(key="selftest-not-discriminating", case=None,
+                          what=(f"the measured footprints of {a} do not pass against the Coq model of {a}" if same else
+                                f"the measured footprints of {a} PASS against the Coq model of {b}: the correspondence "
+                                f"does not discriminate architectures")))
+    return fails, {"selftest_pairs": len(terms), "selftest_wrong": len(bad)}
+
+
+def extra(tier, rng):
+    f1, n = validate_torch_blocks(rng)
+    f2, info = selftest_discrimination(rng)
+    info = dict(info, torch_block_rowwise_checks=n)
+    return f1 + f2, info
+
+
+def sanity(cases, obss):
+    """Fail-closed distribution check."""
+    d = stats(cases, obss)
+    probs = []
+    for m in P.MODELS:
+        if d["models"].get(m, 0) == 0:
+            probs.append(f"model {m} never drawn")
+    if d["kinds"].get("big", 0) == 0:
+        probs.append("no batch larger than the 512-row ghost batch")
+    if d["total"] and d["errors"] > 0.2 * d["total"]:
+        probs.append(f"{d['errors']} of {d['total']} cases failed to run")
+    if d["total"] and d["with_missing"] < 0.5 * d["total"]:
+        probs.append("fewer than half of the frames contain missing cells")
+    if sum(v for k, v in d.get("histories", {}).items() if k != "[]") < 0.5 * d["total"]:
+        probs.append("fewer than half of the cases have a train/eval history")
+    if not any(len(json.loads(k)) >= 2 for k in d.get("histories", {})):
+        probs.append("no history with two or more eval->train->eval rounds")
+    measured = {}
+    for c, o in zip(cases, obss):
+        if c is None or not o.get("ok"):
+            continue
+        for pn, m in zip(o["probe_names"], o["probe_fp"]):
+            measured[(c["model"], pn)] = measured.get((c["model"], pn), False) or (m is not None)
+    for (m, pn), okp in sorted(measured.items()):
+        if not okp:
+            probs.append(f"intermediate tensor {pn} of {m} could never be hooked")
+    return probs
